@@ -1,0 +1,10 @@
+// Copyright (C) 2024, Ava Labs, Inc. All rights reserved.
+// See the file LICENSE for licensing terms.
+
+//go:build !verif
+
+package executor
+
+// verifYield marks a point at which a test built with the "verif" tag may
+// pause the calling goroutine. It is a no-op in regular builds.
+func verifYield(string, int) {}
